@@ -927,6 +927,138 @@ def rule_r7(chk, prog):
     chk.floor('C05.R7', 'continuations of a round', n, 2)
 
 
+# --------------------------------------------------------------------- R8
+def rule_r8(chk, prog):
+    chk.rule('C05.R8', 'hybrid: the second strategy continues from what the '
+             'first one returned (the last element of its chain), not from '
+             'the parsed input')
+    m = prog.mod('cli')
+    f = m.func('ddsmt_main')
+    where = 'cli.ddsmt_main'
+    cfg = cfg_of(f)
+    RD = reaching_defs(cfg, params_of(f))
+    calls = []
+    for st in walk_no_nested(f):
+        if isinstance(st, ast.Assign) and isinstance(
+                st.value, ast.Call) and (call_name(st.value) or '').endswith(
+                    '.reduce') and (call_name(st.value) or '').startswith(
+                        'strategy_'):
+            calls.append(st)
+    calls.sort(key=lambda st: (st.lineno, st.col_offset))
+    chk.floor('C05.R8', 'strategy calls in ddsmt_main', len(calls), 2)
+    for k, st in enumerate(calls):
+        c = st.value
+        if not (c.args and isinstance(c.args[0], ast.Name)):
+            raise AnalysisError(
+                f'C05.R8: {m.loc(c)}: argument of {call_name(c)} is not a '
+                'local name')
+        nm = c.args[0].id
+        node = cfg.node_of[id(st)]
+        ds = (RD.get(node) or {}).get(nm) or ()
+        for prev in calls[:k]:
+            pn = cfg.node_of[id(prev)]
+            # does the earlier strategy run before this one on some path?
+            if not _reaches(cfg, pn, node):
+                continue
+            # its result must be what this call is given
+            tg = prev.targets[0]
+            first = tg.elts[0] if isinstance(tg, ast.Tuple) and tg.elts \
+                else tg
+            def from_prev(name, at, depth=0):
+                # some definition of ``name`` reaching ``at`` is the earlier
+                # strategy's result, possibly through plain copies
+                for d in (RD.get(at) or {}).get(name) or ():
+                    if d == 'param' or depth > 4:
+                        continue
+                    if d is pn and isinstance(first, ast.Name) and \
+                            first.id == name:
+                        return True
+                    a_ = d.ast
+                    if isinstance(a_, ast.Assign) and isinstance(
+                            a_.value, ast.Name) and from_prev(
+                                a_.value.id, d, depth + 1):
+                        return True
+                return False
+
+            ok = from_prev(nm, node)
+            chk.check('C05.R8', where, c, ok,
+                      f'{call_name(c)}({nm}) runs after '
+                      f'{call_name(prev.value)} but is not given its '
+                      f'result ("{unparse(first)}"): the second strategy '
+                      'starts again from an older input, its first write '
+                      'replaces the output of the first strategy by '
+                      'something that is not one simplification away from '
+                      'it', loc=m.loc(c), nontrivial=True)
+
+
+def _reaches(cfg, a, b):
+    seen = set()
+    work = [a]
+    while work:
+        n = work.pop()
+        for e in n.succ:
+            if e.dst is b:
+                return True
+            if e.dst not in seen:
+                seen.add(e.dst)
+                work.append(e.dst)
+    return False
+
+
+# --------------------------------------------------------------------- R9
+def rule_r9(chk, prog):
+    chk.rule('C05.R9', 'a failed write of an accepted input is not '
+             'swallowed: no return/break/continue in a finally block (it '
+             'discards the exception in flight), and the handlers of the '
+             'file writer re-raise')
+    n = 0
+    for m in prog.pkg_modules():
+        if 'tests' in m.rel():
+            continue
+        for t in ast.walk(m.tree):
+            if not isinstance(t, ast.Try) or not t.finalbody:
+                continue
+            n += 1
+            bad = []
+
+            def scan(nodes, in_loop):
+                for x in nodes:
+                    if isinstance(x, (ast.FunctionDef, ast.Lambda,
+                                      ast.AsyncFunctionDef)):
+                        continue
+                    if isinstance(x, ast.Return):
+                        bad.append(x)
+                    if isinstance(x, (ast.Break, ast.Continue)) and \
+                            not in_loop:
+                        bad.append(x)
+                    scan(list(ast.iter_child_nodes(x)), in_loop or
+                         isinstance(x, (ast.For, ast.While)))
+
+            scan(t.finalbody, False)
+            fn = t
+            while fn is not None and not isinstance(fn, ast.FunctionDef):
+                fn = getattr(fn, '_parent', None)
+            wh = f'{m.name}.{getattr(fn, "_qualname", "<module>")}'
+            chk.check('C05.R9', wh, t, not bad,
+                      f'"{unparse(bad[0]) if bad else ""}" inside a finally '
+                      'block discards whatever exception is in flight '
+                      '(OSError of the write, KeyboardInterrupt): the caller '
+                      'carries on as if the output file had been written',
+                      loc=m.loc(bad[0] if bad else t), nontrivial=True)
+    io = prog.mod('nodeio')
+    f = io.func('write_smtlib_to_file')
+    for h in ast.walk(f):
+        if isinstance(h, ast.ExceptHandler):
+            n += 1
+            last = h.body[-1] if h.body else None
+            ok = isinstance(last, ast.Raise)
+            chk.check('C05.R9', 'nodeio.write_smtlib_to_file', h, ok,
+                      'the handler around the write of the output file does '
+                      'not end in "raise": the failure is swallowed',
+                      loc=io.loc(h), nontrivial=True)
+    chk.floor('C05.R9', 'finally blocks and writer handlers', n, 1)
+
+
 def run(tier):
     prog = Program()
     chk = Check(
@@ -954,6 +1086,8 @@ def run(tier):
     chk.guard(rule_adopt_write, chk, prog)
     chk.guard(rule_r6, chk, prog)
     chk.guard(rule_r7, chk, prog)
+    chk.guard(rule_r8, chk, prog)
+    chk.guard(rule_r9, chk, prog)
     extra = None
     if tier == 'thorough':
         from .. import selftest
